@@ -534,14 +534,17 @@ class Flows:
                 out.append((parent, s))
         return out
 
-    def slice(self, path, starts, up=True, down=True, max_nodes=200000, data_only=False, roots=(), skip_captures=False):
-        """inter-procedural, context-insensitive backward slice.
-        returns set of (body_path, node).  `up`: parameters continue at every caller's
-        argument / closure capture site.  `down`: local calls continue at the callee's return
-        value, closures at their whole body."""
+    def slice(self, path, starts, up=True, down=True, max_nodes=400000, data_only=False, roots=(), skip_captures=False, sw_filter=None, max_stack=3):
+        """inter-procedural backward slice with call-string contexts.
+        returns set of (body_path, node).  `down`: True = descend from a local call into the
+        callee's return value and from closure values into closure bodies; "clos" = closures only.
+        `up`: from a parameter continue at the call sites -- at the call site we descended from if we
+        came down (realizable paths only), otherwise at every caller / closure creation site, unless
+        the body is in `roots`."""
         seen = set()
-        work = [(path, n) for n in starts]
+        work = [(path, n, ()) for n in starts]
         prog = self.prog
+        out = set()
         while work:
             if len(seen) > max_nodes:
                 break
@@ -549,87 +552,117 @@ class Flows:
             if item in seen:
                 continue
             seen.add(item)
-            bp, n = item
+            bp, n, stack = item
+            out.add((bp, n))
             fl = self.of(bp)
             b = fl.b
             is_clos_val = skip_captures and n[0] == "L" and n[1] in fl.closure_locals
             for m in fl.dep().get(n, ()):
                 if data_only and m[0] == "SW":
                     continue
+                if sw_filter is not None and m[0] == "SW" and not stack and not sw_filter(bp, m[1]):
+                    continue
                 if is_clos_val and m[0] != "CLOS":
                     continue  # captures are reached through the closure body's upvar reads
-                if (bp, m) not in seen:
-                    work.append((bp, m))
-            if n[0] == "UPV" and up and bp not in roots:
+                work.append((bp, m, stack))
+            if n[0] == "UPV":
                 caps = [c["name"] for c in b.item.get("captures", [])]
-                for (pp, s) in self.closure_sites(bp):
+                if stack and stack[-1][0] == "clos":
+                    # we descended into this closure from its creation site
+                    (_, pp, sbb, sidx) = stack[-1]
+                    pb = prog.bodies[pp]
+                    s_ = pb.blocks[sbb].stmts[sidx]
                     for ci, cname in enumerate(caps):
-                        if cname == n[1] and ci < len(s.rv.ops):
-                            for r in self.of(pp)._op_reads(s.rv.ops[ci]):
-                                work.append((pp, r))
-            elif n[0] == "CALL" and down is True:
+                        if cname == n[1] and ci < len(s_.rv.ops):
+                            for r in self.of(pp)._op_reads(s_.rv.ops[ci]):
+                                work.append((pp, r, stack[:-1]))
+                elif up and bp not in roots:
+                    for (pp, s_) in self.closure_sites(bp):
+                        for ci, cname in enumerate(caps):
+                            if cname == n[1] and ci < len(s_.rv.ops):
+                                for r in self.of(pp)._op_reads(s_.rv.ops[ci]):
+                                    work.append((pp, r, ()))
+            elif n[0] == "CALL" and down is True and len(stack) < max_stack:
                 t = b.blocks[n[1]].term
                 tp = t.callee.target_path(prog) if t.callee else None
                 if tp:
-                    work.append((tp, L(0)))
-                    # everything the callee's control flow depends on influences its result too
-            elif n[0] == "CLOS" and down:
+                    work.append((tp, L(0), stack + (("call", bp, n[1]),)))
+            elif n[0] == "CLOS" and down and len(stack) < max_stack:
                 cp = n[1]
                 if cp in prog.bodies:
                     cf = self.of(cp)
-                    for k in list(cf.dep().keys()):
-                        if data_only and k[0] == "SW":
+                    sites = self.closure_sites(cp)
+                    for (pp, s_) in sites:
+                        if pp != bp:
                             continue
-                        if k[0] in ("CALL", "SW", "SRC") or k == L(0):
-                            work.append((cp, k))
-            elif n[0] in ("L", "SRC") and up:
-                # parameter (or parameter memory) -> callers' arguments / closure captures
+                        nstack = stack + (("clos", pp, s_.bb, s_.idx),)
+                        for k in list(cf.dep().keys()):
+                            if data_only and k[0] == "SW":
+                                continue
+                            if k[0] in ("CALL", "SW", "SRC") or k == L(0):
+                                work.append((cp, k, nstack))
+            elif n[0] in ("L", "SRC") and isinstance(n[1], int):
                 idx = n[1]
-                if 1 <= idx <= b.arg_count and bp not in roots:
-                    if b.kind == "closure":
-                        if idx == 1 and n[0] == "SRC" and len(n) > 2 and n[2]:
-                            # upvar read: (*_1).^name -> capture operand at creation site
-                            up_name = None
-                            for f in n[2]:
-                                if f.startswith("^"):
-                                    up_name = f[1:]
-                                    break
-                            caps = [c["name"] for c in b.item.get("captures", [])]
-                            for (pp, s) in self.closure_sites(bp):
-                                for ci, cname in enumerate(caps):
-                                    if up_name is None or cname == up_name or cname.startswith(up_name + ".") or up_name.startswith(cname):
-                                        if ci < len(s.rv.ops):
-                                            for r in self.of(pp)._op_reads(s.rv.ops[ci]):
-                                                work.append((pp, r))
-                        elif idx == 1:
-                            for (pp, s) in self.closure_sites(bp):
-                                for o in s.rv.ops:
-                                    for r in self.of(pp)._op_reads(o):
-                                        work.append((pp, r))
-                        # closure call arguments (idx >= 2) come from the library that calls it:
-                        # they derive from the receiver of the adaptor the closure is passed to
+                if not (1 <= idx <= b.arg_count):
+                    continue
+                if stack:
+                    top = stack[-1]
+                    if top[0] == "call":
+                        (_, cp, cbb) = top
+                        cf = self.of(cp)
+                        t = cf.b.blocks[cbb].term
+                        if idx - 1 < len(t.args):
+                            for r in cf._op_reads(t.args[idx - 1]):
+                                work.append((cp, r, stack[:-1]))
+                    elif top[0] == "clos":
+                        (_, pp, sbb, sidx) = top
+                        pf = self.of(pp)
+                        s_ = pf.b.blocks[sbb].stmts[sidx]
+                        if idx == 1:
+                            if n[0] == "L" and not skip_captures:
+                                for o in s_.rv.ops:
+                                    for r in pf._op_reads(o):
+                                        work.append((pp, r, stack[:-1]))
                         else:
-                            for (pp, s) in self.closure_sites(bp):
-                                pf = self.of(pp)
-                                # the call that consumes the closure value
-                                cl = s.lhs.local
-                                for t in pf.b.calls():
-                                    if any(a.place is not None and a.place.local == cl for a in t.args):
-                                        # the items come from the adaptor's other arguments (its receiver),
-                                        # not from the closure itself
-                                        for a in t.args:
-                                            if a.place is not None and a.place.local == cl:
-                                                continue
-                                            for r in pf._op_reads(a):
-                                                work.append((pp, r))
+                            cl = s_.lhs.local
+                            for t in pf.b.calls():
+                                if any(a.place is not None and a.place.local == cl for a in t.args):
+                                    for a in t.args:
+                                        if a.place is not None and a.place.local == cl:
+                                            continue
+                                        for r in pf._op_reads(a):
+                                            work.append((pp, r, stack[:-1]))
+                    continue
+                if not up or bp in roots:
+                    continue
+                if b.kind == "closure":
+                    if idx == 1:
+                        if n[0] == "L":
+                            for (pp, s_) in self.closure_sites(bp):
+                                for o in s_.rv.ops:
+                                    for r in self.of(pp)._op_reads(o):
+                                        work.append((pp, r, ()))
                     else:
-                        for (cp, bb) in self.callers().get(bp, ()):
-                            cf = self.of(cp)
-                            t = cf.b.blocks[bb].term
-                            if idx - 1 < len(t.args):
-                                for r in cf._op_reads(t.args[idx - 1]):
-                                    work.append((cp, r))
-        return seen
+                        # closure call arguments come from the library adaptor that calls it: they derive
+                        # from the adaptor's other arguments (its receiver), not from the closure itself
+                        for (pp, s_) in self.closure_sites(bp):
+                            pf = self.of(pp)
+                            cl = s_.lhs.local
+                            for t in pf.b.calls():
+                                if any(a.place is not None and a.place.local == cl for a in t.args):
+                                    for a in t.args:
+                                        if a.place is not None and a.place.local == cl:
+                                            continue
+                                        for r in pf._op_reads(a):
+                                            work.append((pp, r, ()))
+                else:
+                    for (cp, cbb) in self.callers().get(bp, ()):
+                        cf = self.of(cp)
+                        t = cf.b.blocks[cbb].term
+                        if idx - 1 < len(t.args):
+                            for r in cf._op_reads(t.args[idx - 1]):
+                                work.append((cp, r, ()))
+        return out
 
 
 def sources_in(slice_set, prog):
